@@ -446,6 +446,8 @@ class Oracles:
                 if not tm.finished() and not tm.forgotten and (tm.in_cb or tm.body_done or not tm.started):
                     tm.stray_ok = True
                     tm.disturbed = True  # type: ignore[attr-defined]
+        if pm is not None:
+            pm.fault_seen = True      # from here on a pending gather_and_close may legitimately raise CancelledError (a disturbed task)
         a.cancel()
         w.label("abandon:flush-caller-cancelled")
 
@@ -638,8 +640,8 @@ class Oracles:
             if bad:
                 w.fail({"C12"}, "close/swallowed-a-task-exception", f"{pm.name}#{bad[0].tid} had failed with {bad[0].atask.exception()!r}")
         for r in pre_reqs:
-            if r.cancelled:
-                continue
+            if r.cancelled or getattr(r, "iter_failed", None) is not None or getattr(r, "bad_return", None) is not None:
+                continue        # cancelled, or ended by a fault of the user's own iterable / function: nothing more is owed
             missing = r.expected_calls - self.accounted(pm, r) if (r.kind in ("apply", "start") or r.pulled >= 0) else 0
             if r.kind not in ("apply", "start") and r.pulled >= 0 and not r.exhausted:
                 w.fail({"C08"}, "close/returned-before-iterable-consumed", f"r{r.rid} pulled {r.pulled}/{r.expected_calls}")
